@@ -26,6 +26,10 @@ def main():
         print("no check for", a.prop)
         traceback.print_exc()
         return 2
+    if not a.replay:
+        import glob
+        for f in glob.glob(os.path.join(common.REPLAYS, a.prop + "_*.json")):
+            os.remove(f)          # replay files of earlier runs are stale
     if a.replay:
         obj = json.load(open(a.replay))
         return mod.replay(ctx, obj)
